@@ -86,6 +86,24 @@ structure Facts where
 
 def intOf (s : Seq) : Int := (parseInt64 s).getD 0
 
+/-- optional `- end` after the start of an interval: `(end, next token, rest)`; `none` = error -/
+def optRange (start : Int) (tok : Tok) (inp : Seq) : Option (Int × Tok × Seq) :=
+  match tok with
+  | .range =>
+    match scan inp with
+    | (.dec l2, inp2) => let r := scan inp2; some (intOf l2, r.1, r.2)
+    | _ => none
+  | _ => some (start, tok, inp)
+
+/-- optional `/ modulo`: `(modulo, next token, rest)`; `none` = error -/
+def optModulo (tok : Tok) (inp : Seq) : Option (Int × Tok × Seq) :=
+  match tok with
+  | .modulo =>
+    match scan inp with
+    | (.dec l3, inp3) => let r := scan inp3; some (intOf l3, r.1, r.2)
+    | _ => none
+  | _ => some (1, tok, inp)
+
 /-- the interval loop `for tok != ENDOFLINE && tok != EOF { … }` -/
 def intervals (f : Facts) (part model : Name) : Nat → Tok → Seq → PSet → Outcome (Tok × Seq × PSet)
   | 0, _, _, _ => .hang
@@ -93,34 +111,21 @@ def intervals (f : Facts) (part model : Name) : Nat → Tok → Seq → PSet →
     if tok == .eol || tok == .eof then .ok (tok, inp, ps) else
     match tok with
     | .dec l =>
-      let start := intOf l
-      let (tok, inp) := scan inp
-      -- optional `- end`
-      match (match tok with
-        | .range =>
-          match scan inp with
-          | (.dec l2, inp2) => let (t, i) := scan inp2; some (intOf l2, t, i)
-          | _ => none
-        | _ => some (start, tok, inp)) with
+      let r1 := scan inp
+      match optRange (intOf l) r1.1 r1.2 with
       | none => .error
-      | some (endV, tok, inp) =>
-        -- optional `/ modulo`
-        match (match tok with
-          | .modulo =>
-            match scan inp with
-            | (.dec l3, inp3) => let (t, i) := scan inp3; some (intOf l3, t, i)
-            | _ => none
-          | _ => some (1, tok, inp)) with
+      | some (endV, tok2, inp2) =>
+        match optModulo tok2 inp2 with
         | none => .error
-        | some (modulo, tok, inp) =>
+        | some (modulo, tok3, inp3) =>
           match addRange f.rejectsStartAfterEnd f.guardsOverflow ps part model
-              (wrap64 (start - 1)) (wrap64 (endV - 1)) modulo with
+              (wrap64 (intOf l - 1)) (wrap64 (endV - 1)) modulo with
           | .ok ps' =>
-            if tok == .sep then
-              let (t, i) := scan inp
-              intervals f part model fuel t i ps'
-            else if tok != .eol && tok != .eof then .error
-            else intervals f part model fuel tok inp ps'
+            if tok3 == .sep then
+              let r := scan inp3
+              intervals f part model fuel r.1 r.2 ps'
+            else if tok3 != .eol && tok3 != .eof then .error
+            else intervals f part model fuel tok3 inp3 ps'
           | .error => .error
           | .exit => .exit
           | .panic => .panic
